@@ -64,6 +64,27 @@ Proof.
   - destruct (IH ts H) as [x' [t' [Hx Hs]]]. exists x', t'. split; [right; exact Hx | exact Hs].
 Qed.
 
+Lemma pick_nil {A B} (m: A -> bool) (f: A -> list B) (p: A -> bool) us :
+  Forall (fun t => p t = true -> f t = []) us -> forallb p us = true -> pick m f [] us = [].
+Proof.
+  induction 1 as [| t r Ht Hr IH]; intros Hp; simpl in *; [reflexivity |].
+  apply andb_prop in Hp. destruct Hp as [Hp1 Hp2]. destruct (m t); [now apply Ht | now apply IH].
+Qed.
+
+Lemma pick_in {A B} (m: A -> bool) (f: A -> list B) (Q: B -> Prop) us s :
+  Forall (fun t => forall s, In s (f t) -> Q s) us -> In s (pick m f [] us) -> Q s.
+Proof.
+  induction 1 as [| t r Ht Hr IH]; simpl; intros Hs; [contradiction |].
+  destruct (m t); [now apply Ht | now apply IH].
+Qed.
+
+Lemma pick_ext {A B} (m: A -> bool) (f g: A -> B) (p: A -> bool) (d: B) us :
+  Forall (fun t => p t = true -> f t = g t) us -> forallb p us = true -> pick m f d us = pick m g d us.
+Proof.
+  induction 1 as [| t r Ht Hr IH]; intros Hp; simpl in *; [reflexivity |].
+  apply andb_prop in Hp. destruct Hp as [Hp1 Hp2]. destruct (m t); [now apply Ht | now apply IH].
+Qed.
+
 Section Sub.
   Variable E : env.
   Variable cf : list origin -> ty -> bool.
@@ -73,8 +94,10 @@ Section Sub.
     In s (byref E cf v call N hsup t) -> In s (subvalues v).
   Proof.
     induction v as [z | | z | l | k l xs IH | k l kvs IH | c l fs IH] using lv_ind';
-      intros call N hsup t; induction t as [| lk | | | t' IHt | o t' IHt | t' IHt | ts IHts | o kt IHk vt IHv | c0 | tw IHw | us IHus] using ty_ind';
-      intros s Hs; try (apply IHw; exact Hs; fail); simpl in Hs; try contradiction;
+      intros call N hsup t; induction t as [| lk | | | t' IHt | o t' IHt | t' IHt | ts IHts | o kt IHk vt IHv | c0 | tw IHw | us IHus |] using ty_ind';
+      intros s Hs; try (apply IHw; exact Hs; fail);
+      try (rewrite byref_union in Hs; revert Hs; apply pick_in with (Q := fun s => In s (subvalues _)); exact IHus);
+      simpl in Hs; try contradiction;
       try (apply in_root in Hs; subst s; apply subvalues_self; fail);
       try (apply IHt; exact Hs; fail);
       try (destruct Hs as [Hs | []]; subst s; apply subvalues_self; fail).
@@ -105,10 +128,10 @@ End Sub.
 (* an old label never comes with altered content: every old-labelled node of the result
    is, as a whole, a sub-value of the argument *)
 Lemma pack_no_mutation E n0 call Ntop t v :
-  conforms E v t = true -> all_old n0 v = true ->
+  conforms E v t = true -> udet E v call Ntop true t = true -> all_old n0 v = true ->
   forall s, In s (maxold n0 (fst (pack_top E call Ntop t v n0))) -> In s (subvalues v).
 Proof.
-  intros Hc Ho s Hs. pose proof (pack_top_share E n0 call Ntop t v Hc Ho) as H.
+  intros Hc Hu Ho s Hs. pose proof (pack_top_share E n0 call Ntop t v Hc Hu Ho) as H.
   destruct (pack_top E call Ntop t v n0) as [r n1]. destruct H as [H _]. simpl in Hs. rewrite H in Hs.
   eapply byref_sub; eauto.
 Qed.
@@ -124,6 +147,7 @@ Fixpoint anyfree (t: ty) : bool :=
   | TMap _ kt vt => anyfree kt && anyfree vt
   | TWrap t' => anyfree t'
   | TUnion ts => forallb anyfree ts
+  | TNone => true
   end.
 
 Definition default_env (E: env) : Prop :=
@@ -152,8 +176,10 @@ Section Default.
     anyfree t = true -> byref E cf v None [] hsup t = [].
   Proof.
     induction v as [z | | z | l | k l xs IH | k l kvs IH | c l fs IH] using lv_ind';
-      intros hsup t; induction t as [| lk | | | t' IHt | o t' IHt | t' IHt | ts IHts | o kt IHk vt IHv | c0 | tw IHw | us IHus] using ty_ind';
-      intros Ha; try (apply IHw; exact Ha; fail); simpl in Ha; try discriminate Ha; try reflexivity;
+      intros hsup t; induction t as [| lk | | | t' IHt | o t' IHt | t' IHt | ts IHts | o kt IHk vt IHv | c0 | tw IHw | us IHus |] using ty_ind';
+      intros Ha; try (apply IHw; exact Ha; fail); simpl in Ha; try discriminate Ha;
+      try (rewrite byref_union; apply pick_nil with (p := anyfree); [exact IHus | exact Ha]; fail);
+      try reflexivity;
       try (simpl; apply IHt; exact Ha; fail).
     - simpl. apply flat_map_nil. eapply Forall_impl; [| exact IH]. intros x Hx. apply Hx. exact Ha.
     - simpl. apply flat_map_nil. eapply Forall_impl; [| exact IH]. intros x Hx. apply Hx. exact Ha.
@@ -171,26 +197,12 @@ End Default.
 
 Lemma pack_default_fresh E n0 t v :
   default_env E -> anyfree_env E -> anyfree t = true ->
-  conforms E v t = true -> all_old n0 v = true ->
+  conforms E v t = true -> udet E v None [] true t = true -> all_old n0 v = true ->
   forall l, In l (labels (fst (pack_top E None [] t v n0))) -> n0 <= l.
 Proof.
-  intros Hd Ha Ht Hc Ho. pose proof (pack_top_share E n0 None [] t v Hc Ho) as H.
+  intros Hd Ha Ht Hc Hu Ho. pose proof (pack_top_share E n0 None [] t v Hc Hu Ho) as H.
   destruct (pack_top E None [] t v n0) as [r n1]. destruct H as [H _]. simpl.
   apply maxold_nil_all_fresh. rewrite H. apply byref_default_nil; auto.
-Qed.
-
-Lemma pick_nil {A B} (m: A -> bool) (f: A -> list B) (p: A -> bool) us :
-  Forall (fun t => p t = true -> f t = []) us -> forallb p us = true -> pick m f [] us = [].
-Proof.
-  induction 1 as [| t r Ht Hr IH]; intros Hp; simpl in *; [reflexivity |].
-  apply andb_prop in Hp. destruct Hp as [Hp1 Hp2]. destruct (m t); [now apply Ht | now apply IH].
-Qed.
-
-Lemma pick_in {A B} (m: A -> bool) (f: A -> list B) (Q: B -> Prop) us s :
-  Forall (fun t => forall s, In s (f t) -> Q s) us -> In s (pick m f [] us) -> Q s.
-Proof.
-  induction 1 as [| t r Ht Hr IH]; simpl; intros Hs; [contradiction |].
-  destruct (m t); [now apply Ht | now apply IH].
 Qed.
 
 Section DefaultUnpack.
@@ -200,7 +212,7 @@ Section DefaultUnpack.
   Lemma anyref_anyfree_nil : forall w t, anyfree t = true -> anyref E w t = [].
   Proof.
     induction w as [z | | z | l | k l xs IH | k l kvs IH | c l fs IH] using lv_ind';
-      intros t; induction t as [| lk | | | t' IHt | o t' IHt | t' IHt | ts IHts | o kt IHk vt IHv | c0 | tw IHw | us IHus] using ty_ind';
+      intros t; induction t as [| lk | | | t' IHt | o t' IHt | t' IHt | ts IHts | o kt IHk vt IHv | c0 | tw IHw | us IHus |] using ty_ind';
       intros Ha; try (apply IHw; exact Ha; fail); simpl in Ha; try discriminate Ha;
       try (rewrite anyref_union; apply pick_nil with (p := anyfree); [exact IHus | exact Ha]; fail);
       try reflexivity;
@@ -230,7 +242,7 @@ Qed.
 Lemma anyref_sub E : forall w t s, In s (anyref E w t) -> In s (subvalues w).
 Proof.
   induction w as [z | | z | l | k l xs IH | k l kvs IH | c l fs IH] using lv_ind';
-    intros t; induction t as [| lk | | | t' IHt | o t' IHt | t' IHt | ts IHts | o kt IHk vt IHv | c0 | tw IHw | us IHus] using ty_ind';
+    intros t; induction t as [| lk | | | t' IHt | o t' IHt | t' IHt | ts IHts | o kt IHk vt IHv | c0 | tw IHw | us IHus |] using ty_ind';
     intros s Hs; try (apply IHw; exact Hs; fail);
     try (rewrite anyref_union in Hs; revert Hs; apply pick_in with (Q := fun s => In s (subvalues _)); exact IHus);
     simpl in Hs; try contradiction;
@@ -274,14 +286,15 @@ Fixpoint optfree (t: ty) : bool :=
   | TMap _ kt vt => optfree kt && optfree vt
   | TWrap t' => optfree t'
   | TUnion ts => forallb optfree ts
+  | TNone => true
   end.
 Definition optfree_env (E: env) : Prop := forall c, forallb optfree (E.(e_ct) c).(c_fields) = true.
 
 Lemma ident_conv_free E N t : optfree t = true -> ident E N t = conv_free E N t.
 Proof.
-  unfold ident. induction t as [| k | | | t IHt | o t IHt | t IHt | ts IHts | o t1 IHt1 t2 IHt2 | c0 | tw IHw | us IHus] using ty_ind';
+  unfold ident. induction t as [| k | | | t IHt | o t IHt | t IHt | ts IHts | o t1 IHt1 t2 IHt2 | c0 | tw IHw | us IHus |] using ty_ind';
     intros H; simpl in H; try discriminate H; simpl; try reflexivity; try (apply IHw; exact H; fail).
-  - destruct (e_lp E k); reflexivity.
+  - destruct (e_lp E k); destruct k; reflexivity.
   - unfold seq_expr. rewrite <- (IHt H). destruct (is_id (cp E N false t)).
     + destruct (inN N o); [reflexivity |]. destruct (origin_eqb o OList); reflexivity.
     + now rewrite andb_false_r.
@@ -314,8 +327,10 @@ Section OptFree.
     optfree t = true -> byref E (ident E) v call N hsup t = byref E (conv_free E) v call N hsup t.
   Proof.
     induction v as [z | | z | l | k l xs IH | k l kvs IH | c l fs IH] using lv_ind';
-      intros call N hsup t; induction t as [| lk | | | t' IHt | o t' IHt | t' IHt | ts IHts | o kt IHk vt IHv | c0 | tw IHw | us IHus] using ty_ind';
-      intros Ha; try (apply IHw; exact Ha; fail); simpl in Ha; try discriminate Ha; try reflexivity.
+      intros call N hsup t; induction t as [| lk | | | t' IHt | o t' IHt | t' IHt | ts IHts | o kt IHk vt IHv | c0 | tw IHw | us IHus |] using ty_ind';
+      intros Ha; try (apply IHw; exact Ha; fail); simpl in Ha; try discriminate Ha;
+      try (rewrite !byref_union; apply pick_ext with (p := optfree); [exact IHus | exact Ha]; fail);
+      try reflexivity.
     - simpl. rewrite (ident_conv_free E N t' Ha). destruct (inN N o && conv_free E N t'); [reflexivity |].
       apply flat_map_ext_Forall. eapply Forall_impl; [| exact IH]. intros x Hx. apply Hx. exact Ha.
     - simpl. apply flat_map_ext_Forall. eapply Forall_impl; [| exact IH]. intros x Hx. apply Hx. exact Ha.
@@ -333,11 +348,71 @@ End OptFree.
 
 Lemma pack_share_partial E n0 call Ntop t v :
   optfree_env E -> optfree t = true ->
-  conforms E v t = true -> all_old n0 v = true ->
+  conforms E v t = true -> udet E v call Ntop true t = true -> all_old n0 v = true ->
   let (r, n1) := pack_top E call Ntop t v n0 in
   maxold n0 r = byref E (conv_free E) v call Ntop true t /\ n0 <= n1.
 Proof.
-  intros He Ht Hc Ho. pose proof (pack_top_share E n0 call Ntop t v Hc Ho) as H.
+  intros He Ht Hc Hu Ho. pose proof (pack_top_share E n0 call Ntop t v Hc Hu Ho) as H.
   destruct (pack_top E call Ntop t v n0) as [r n1]. destruct H as [H1 H2].
   split; [| exact H2]. rewrite H1. apply byref_optfree; auto.
 Qed.
+
+(* ------------------------------------------------------------------ *)
+(* the decode side does not look at any dialect: only the field types of the class table matter *)
+Definition fields_agree (E E': env) : Prop :=
+  forall c, (E.(e_ct) c).(c_fields) = (E'.(e_ct) c).(c_fields).
+
+Lemma map_st_ext {A B} (f g: A -> nat -> B * nat) xs :
+  Forall (fun x => forall n, f x n = g x n) xs -> forall n, map_st f xs n = map_st g xs n.
+Proof.
+  induction 1 as [| x r Hx Hr IH]; intros n; simpl; [reflexivity |].
+  rewrite Hx. destruct (g x n) as [y n1]. now rewrite IH.
+Qed.
+
+Lemma zip_st_ext {A B C} (f g: A -> B -> nat -> C * nat) xs :
+  Forall (fun x => forall e n, f x e n = g x e n) xs -> forall es n, zip_st f es xs n = zip_st g es xs n.
+Proof.
+  induction 1 as [| x r Hx Hr IH]; intros es n; destruct es as [| e es]; simpl; try reflexivity.
+  rewrite Hx. destruct (g x e n) as [y n1]. now rewrite IH.
+Qed.
+
+Section DecodeDialect.
+  Variables E E' : env.
+  Hypothesis Hag : fields_agree E E'.
+
+  Lemma run_unpack_dialect_free : forall w t n, run_unpack E w (cu t) n = run_unpack E' w (cu t) n.
+  Proof.
+    induction w as [z | | z | l | k l xs IH | k l kvs IH | c l fs IH] using lv_ind';
+      intros t; induction t as [| lk | | | t' IHt | o t' IHt | t' IHt | ts IHts | o kt IHk vt IHv | c0 | tw IHw | us IHus |] using ty_ind';
+      intros n; try reflexivity; try (apply IHw; fail);
+      try (cbn [cu]; rewrite !ru_opt; first [reflexivity | apply IHt]; fail);
+      try (cbn [cu]; rewrite !ru_union;
+           induction IHus as [| t r Ht Hr IHr]; simpl; [reflexivity |];
+           destruct (cls_fits (tcls t) _); [apply Ht | apply IHr]; fail).
+    - simpl. rewrite (map_st_ext (fun x => run_unpack E x (cu t')) (fun x => run_unpack E' x (cu t')) xs); [reflexivity |].
+      eapply Forall_impl; [| exact IH]. intros x Hx m. apply Hx.
+    - simpl. rewrite (map_st_ext (fun x => run_unpack E x (cu t')) (fun x => run_unpack E' x (cu t')) xs); [reflexivity |].
+      eapply Forall_impl; [| exact IH]. intros x Hx m. apply Hx.
+    - simpl.
+      assert (Hz: forall E0 m, zip_st (fun x e' => run_unpack E0 x e') (map cu ts) xs m
+                         = zip_st (fun x t => run_unpack E0 x (cu t)) ts xs m).
+      { clear. intros E0. revert ts. induction xs as [| x r IHr]; intros ts m; destruct ts as [| t ts]; simpl; try reflexivity.
+        destruct (run_unpack E0 x (cu t) m) as [y m1]. now rewrite IHr. }
+      rewrite !Hz.
+      rewrite (zip_st_ext (fun x t => run_unpack E x (cu t)) (fun x t => run_unpack E' x (cu t)) xs); [reflexivity |].
+      eapply Forall_impl; [| exact IH]. intros x Hx e m. apply Hx.
+    - simpl.
+      match goal with |- (let (ys, n') := map_st ?f kvs ?m in _) = (let (ys, n') := map_st ?g kvs ?m in _) =>
+        rewrite (map_st_ext f g kvs) end; [reflexivity |].
+      eapply Forall_impl; [| exact IH]. intros [k0 x] [Hk Hx] m. simpl in *.
+      rewrite Hk. destruct (run_unpack E' k0 (cu kt) m) as [k' m1]. rewrite Hx. reflexivity.
+    - simpl. rewrite <- (Hag c0).
+      match goal with |- (let (ys, n') := zip_st ?f ?ts kvs ?m in _) = (let (ys, n') := zip_st ?g ?ts kvs ?m in _) =>
+        rewrite (zip_st_ext f g kvs) end; [reflexivity |].
+      eapply Forall_impl; [| exact IH]. intros [k0 x] [Hk Hx] e m. simpl in *. apply Hx.
+  Qed.
+End DecodeDialect.
+
+Lemma unpack_dialect_independent E E' t w n :
+  fields_agree E E' -> unpack_top E t w n = unpack_top E' t w n.
+Proof. intros H. unfold unpack_top. now apply run_unpack_dialect_free. Qed.
